@@ -189,6 +189,8 @@ def decode(j, gin=None):
       return gin.config.ConfigurableReference(j['macro'] + '/gin.macro', True)
     if 'const' in j:
       return gin.config.ConfigurableReference(j['const'] + '/gin.constant', True)
+    if 'unk' in j:   # the placeholder skip_unknown leaves for a reference to an unknown configurable
+      return gin.config._UnknownConfigurableReference(j['unk'][0], bool(j['unk'][1]))  # pylint: disable=protected-access
   raise ValueError(f'cannot decode {j!r}')
 
 
